@@ -209,11 +209,86 @@ def family_e3(thorough: bool = False):
         yield "options-late", jwire.write_delimited([jwire.enc_frame(rows2)])
     many = jwire.enc_frame([orow] + [tr] * 3)
     yield "many-frames", jwire.write_delimited([many] * 2000)
+    # long, almost well-formed strings in every string-valued field (pattern matching on them
+    # must not blow up)
+    o2 = jwire.mkrow("options", {**opts, "version": 2, "max_prefix_table_size": 4,
+                                 "max_datatype_table_size": 4})
+    for base_s in ("abc123" * 8, "a-" * 40, "x" * 200, "a1-" * 300):
+        for junk in ("\u00e9", "\x00", " ", "-", "_"):
+            sbad = base_s + junk
+            rows = [o2,
+                    jwire.mkrow("prefix", {"id": 1, "value": sbad}),
+                    jwire.mkrow("name", {"id": 1, "value": sbad}),
+                    jwire.mkrow("datatype", {"id": 1, "value": sbad}),
+                    jwire.mkrow("namespace", {"name": sbad, "iri": ("iri", 1, 1)}),
+                    jwire.mkrow("triple", {"s": ("bnode", sbad), "p": ("iri", 1, 1),
+                                           "o": ("literal", sbad, sbad, None)}),
+                    jwire.mkrow("triple", {"s": ("iri", 1, 1), "p": ("iri", 1, 1),
+                                           "o": ("literal", sbad, None, 1)})]
+            yield "hostile-strings", jwire.write_delimited([jwire.enc_frame(rows)])
+
+
+def scaling_input(kind: str, k: int) -> bytes:
+    opts = {"physical_type": 1, "max_name_table_size": 8, "version": 1}
+    orow = jwire.mkrow("options", opts)
+    full = jwire.mkrow("triple", {"s": ("bnode", "a"), "p": ("bnode", "b"), "o": ("bnode", "c")})
+    if kind == "rows-per-frame":
+        rep = jwire.mkrow("triple", {})  # repeats s, p and o: the smallest possible row
+        return jwire.write_delimited([jwire.enc_frame([orow, full] + [rep] * k)])
+    if kind == "frames":
+        fr = jwire.enc_frame([jwire.mkrow("triple", {})])
+        return jwire.write_delimited([jwire.enc_frame([orow, full])] + [fr] * k)
+    if kind == "entries":
+        rows = [orow, full]
+        for i in range(k):
+            rows.append(jwire.mkrow("name", {"id": (i % 8) + 1, "value": f"n{i}"}))
+        return jwire.write_delimited([jwire.enc_frame(rows)])
+    if kind == "distinct-statements":
+        rows = [orow]
+        for i in range(k):
+            rows.append(jwire.mkrow("name", {"id": (i % 8) + 1, "value": f"n{i}"}))
+            rows.append(jwire.mkrow("triple", {"s": ("iri", 0, (i % 8) + 1), "p": ("bnode", "p"),
+                                               "o": ("literal", str(i), None, None)}))
+        return jwire.write_delimited([jwire.enc_frame(rows)])
+    raise ValueError(kind)
+
+
+SCALING = (("rows-per-frame", 50_000), ("frames", 20_000), ("entries", 50_000),
+           ("distinct-statements", 20_000))
+
+
+def scaling_shard(job) -> dict:
+    """Time must grow (about) linearly with the real size of the input: t(4n) / t(n) stays far
+    below the 16 of a quadratic algorithm."""
+    kind, k, thorough = job
+    acc = pool.Acc()
+    for api in ("generic", "rdflib"):
+        times = []
+        for mult in (1, 4):
+            data = scaling_input(kind, k * mult)
+            t0 = time.process_time()
+            items, exc = consume_flat(api, io.BytesIO(data))
+            times.append(time.process_time() - t0)
+            if exc is not None or len(items) < k * mult:
+                acc.extra["harness"] = f"scaling input {kind} x{mult} not parsed: {exc} {len(items)}"
+        acc.evals += 1
+        acc.nontrivial += 1
+        t1, t4 = times
+        if t4 > 2.0 and t4 > 9 * max(t1, 0.02):
+            acc.violation({"fail": "super-linear", "family": "e4:" + kind},
+                          f"{api} flat parser: {kind} of size {k} takes {t1:.2f}s CPU, size "
+                          f"{4 * k} takes {t4:.2f}s (x{t4 / max(t1, 1e-9):.1f}; linear would be x4)",
+                          {"family": "e4:" + kind, "k": k, "data": None, "thorough": thorough})
+        acc.extra.setdefault("scaling", {})[f"{api}:{kind}"] = [round(t1, 3), round(t4, 3)]
+    acc.sample({"family": "e4", "kind": kind, "sizes": [k, 4 * k]}, cap=1)
+    return acc.out()
 
 
 # ------------------------------------------------------------------ workers
 def shard(job) -> dict:
     fam, args, thorough, progress = job
+    if fam == "e4":
+        return scaling_shard((*args, thorough))
     signal.signal(signal.SIGPROF, _alarm)
     resource.setrlimit(resource.RLIMIT_AS, (AS_LIMIT, AS_LIMIT))  # protect the machine
     for _, seed in seeds()[:2]:
@@ -283,6 +358,8 @@ def run(ctx) -> None:
             jobs.append(("e2", (name, seed, values, lo, lo + step)))
     for i in range(8):
         jobs.append(("e3", (i, 8)))
+    for kind, k in SCALING:
+        jobs.append(("e4", (kind, k)))
     jobs = [(fam, args, thorough, os.path.join(tmp, f"p{i}")) for i, (fam, args) in enumerate(jobs)]
     ctxm = mp.get_context("fork")
     results = []
@@ -348,6 +425,8 @@ def run(ctx) -> None:
         evaluations=merged["evals"],
         distinct_nontrivial=merged["nontrivial"],
         outcome_histogram=hist,
+        scaling_cpu_seconds_n_and_4n={k: v for e in merged["extras"]
+                                      for k, v in e.get("scaling", {}).items()},
         worst_case_cpu_ms=max((e.get("worst_ms", 0) for e in merged["extras"]), default=0),
         max_rss_growth_kb=max((e.get("max_rss_growth_kb", 0) for e in merged["extras"]), default=0),
         exhaustive=not ctx.coverage.get("aborted_after_hang", False)
@@ -360,7 +439,10 @@ def run(ctx) -> None:
             f"({'structural values' if ctx.quick else 'all 256 values'}), deletion, structural "
             "insertion, truncation, truncation+new header; E3: hostile catalogue (declared lengths "
             "2^31-1/2^33/2^62, tables 4097/2^32-1, entry ids up to 2^32-1, nesting depth 1..1000, "
-            "10^5 continuation bytes, 10^4 empty frames, options rows everywhere, 2000 frames); "
+            "10^5..3*10^6 continuation bytes, up to 4*10^5 empty frames, options rows everywhere, 2000 "
+            "frames, long almost-well-formed strings in every string field); E4: scaling probes "
+            "(rows per frame, frames, entries, distinct statements at n and 4n: CPU time must not "
+            "grow super-linearly); "
             "entry points: flat+grouped of both integrations from BytesIO and a non-seekable raw "
             "source (+ parse-to-graph and Graph.parse in thorough); per-case 10 s CPU-time interval-timer "
             "watchdog, peak-RSS growth < 24 MiB (+10 bytes per input byte, +2 KiB per real frame) after warm-up, parent-side worker watchdog; non-trivial = at "
